@@ -1,0 +1,20 @@
+//go:build verif
+
+package gentoo
+
+// Machine-checked contracts for this package (checked by /verif/govc; see /verif/DESIGN.md).
+// This file contains comments only; it is compiled only under the build tag "verif".
+
+//@ func compareInt
+//@   comparator a ~ b                                     [C01]
+//@   ensures result == 0 ==> a == b                       [C01]
+//@   ensures result == (a < b ? -1 : (a > b ? 1 : 0))     [C03]
+
+//@ func (*Version).Compare
+//@   comparator v ~ other where wf(v) && wf(other)        [C01]
+
+// Data invariant of parsed versions: the suffix is absent or one of the ranked keywords (none ranks 0).
+//@ spec wf(v *Version) bool = v.suffix == "" || (has(suffixValues, v.suffix) && suffixValues[v.suffix] != 0)
+
+//@ func (*Ecosystem).NewVersion
+//@   ensures wf: result1 == nil ==> wf(result0)          [C01]
